@@ -85,6 +85,24 @@ class Shadow:
                         self.eject_obj(o, now, self.eject_ns, "probe-eject")
                     else:
                         o.healthy = True
+        elif op == "probe-begin":
+            o = self.by_name(w[2])
+            if o is not None:
+                self.lazy(o, int(w[3]))
+            self.pending_probe = w[2] if out == "started" else None
+        elif op == "probe-end" and getattr(self, "pending_probe", None) != w[2]:
+            pass
+        elif op == "probe-end":
+            self.pending_probe = None
+            # the answer of a probe sent earlier: a failure ejects; a success never cuts a
+            # running window short (the backend may have been ejected meanwhile)
+            o = self.by_name(w[2])
+            now = int(w[3])
+            if o is not None:
+                if w[4] == "fail":
+                    self.eject_obj(o, now, self.eject_ns, "probe-eject")
+                elif not self.in_window(o, now):
+                    o.healthy = True
         elif op == "begin":
             now = int(w[3])
             self.tot["requests"] += 1
